@@ -110,7 +110,7 @@ def clientAdd (s : St) (bind : Bool) (p : Nat) (ent : List Nat) (feat : Nat) : S
 /-- RemoveRemoteDeviceConnection -/
 def drop (c : Cfg) (s : St) (p : Nat) : St :=
   if !s.alive.contains p then s else
-  { s with reg := Reg.dropPeer c.reg s.reg p,
+  { s with reg := Reg.removePeer c.reg s.reg p,
            alive := s.alive.filter (· ≠ p),
            pend := s.pend.filter (·.peer ≠ p),
            armed := if c.timersSurvive then s.armed else s.armed.filter (·.peer ≠ p),
@@ -123,7 +123,8 @@ def reconnect (s : St) (p : Nat) : St :=
   if s.alive.contains p then s else
   { s with alive := p :: s.alive,
            late := s.late.filter (· ≠ p),
-           reg := { s.reg with rem := fun q => if q = p then s.tree else s.reg.rem q } }
+           reg := { s.reg with rem := fun q => if q = p then s.tree else s.reg.rem q,
+                               bare := fun q => if q = p then [] else s.reg.bare q } }
 
 def ofEntity (p : Nat) (ent : List Nat) (x : Pend) : Bool := x.peer = p && x.cEnt = ent
 
@@ -132,6 +133,19 @@ def dropEntity (c : Cfg) (s : St) (p : Nat) (ent : List Nat) : St :=
   if !s.alive.contains p then s else
   if !((s.reg.rem p).map (·.ent)).contains ent then s else
   { s with reg := Reg.dropEntity c.reg s.reg p ent,
+           pend := if c.entityKeepsApprovals then s.pend else s.pend.filter (fun x => !ofEntity p ent x),
+           armed := if c.entityKeepsApprovals then s.armed else s.armed.filter (fun x => !ofEntity p ent x),
+           csubs := s.csubs.filter (fun b => !(b.peer = p && b.ent = ent)),
+           cbinds := s.cbinds.filter (fun b => !(b.peer = p && b.ent = ent)) }
+
+/-- One removal entry of a discovery notification in the composed world: [0] is kept; an entity known with or without
+    features goes with everything that refers to it. `dropEntity` is the cascade on its domain (announced with features,
+    not [0]). -/
+def removeEntity (c : Cfg) (s : St) (p : Nat) (ent : List Nat) : St :=
+  if ent = [0] then s else
+  if !s.alive.contains p then s else
+  if !(Reg.knownEnts s.reg p).contains ent then s else
+  { s with reg := Reg.removeEntity c.reg s.reg p ent,
            pend := if c.entityKeepsApprovals then s.pend else s.pend.filter (fun x => !ofEntity p ent x),
            armed := if c.entityKeepsApprovals then s.armed else s.armed.filter (fun x => !ofEntity p ent x),
            csubs := s.csubs.filter (fun b => !(b.peer = p && b.ent = ent)),
@@ -156,12 +170,14 @@ def regPeer : Reg.Op → Nat
   | .dropEnt p _ => p
   | .subsPass p _ => p
   | .bindsPass p _ => p
+  | .bareEnt p _ => p
 
 def isCall : Reg.Op → Bool
   | .drop _ => false
   | .dropEnt .. => false
   | .subsPass .. => false
   | .bindsPass .. => false
+  | .bareEnt .. => false
   | _ => true
 
 def step (c : Cfg) (s : St) : Op → St
@@ -171,7 +187,7 @@ def step (c : Cfg) (s : St) : Op → St
   | .fire => fire s
   | .client b p e f => (clientAdd s b p e f).1
   | .drop p => drop c s p
-  | .dropEnt p e => dropEntity c s p e
+  | .dropEnt p e => removeEntity c s p e
   | .reconnect p => reconnect s p
 
 def run (c : Cfg) (s0 : St) (ops : List Op) : St := ops.foldl (step c) s0
